@@ -88,8 +88,12 @@ func decStr(r *engine.Rand, kind int) string {
 }
 
 func (m *Module) Configure(w *engine.World, r *engine.Rand) any {
-	all := []string{"aaa", "bbb", "ccc", "ddd"}
+	all := []string{"aaa", "bbb", "ccc", "ddd", "eee", "fff", "ggg", "hhh", "iii", "jjj", "kkk", "lll", "mmm", "nnn"}
 	n := 2 + r.Intn(3)
+	if r.Bool(0.2) {
+		// many pools: pool sequence numbers reach two digits
+		n = 10 + r.Intn(5)
+	}
 	c := Config{Denoms: all[:n]}
 	for i := 0; i < n; i++ {
 		switch r.Intn(4) {
